@@ -10,6 +10,7 @@ require (
 require (
 	github.com/shirou/gopsutil/v4 v4.26.1 // indirect
 	golang.org/x/crypto v0.48.0 // indirect
+	golang.org/x/sync v0.19.0 // indirect
 	golang.org/x/sys v0.41.0 // indirect
 )
 
